@@ -5,11 +5,17 @@
       - UnrecognizedEof is raised only after the whole input was read and carries the end of the
         last token, or the default location 0 for the empty input (ANY tables);
       - ExtraToken is never returned (validated tables);
-    Not proved yet (partial): that the consumed prefix is viable and that the error token is the
-    FIRST non-viable one (viable-prefix invariant + locality of runs).  The check decides that
-    clause per run with an independent Earley oracle on every explored input. *)
+      - the prefix that ends in the error token is NOT a prefix of any sentence, and an input
+        answered with UnrecognizedEof is not a sentence (validated tables; by completeness, fuel
+        monotonicity and locality of runs);
+      - with a productive grammar (certificate ranks, kernel-checked per table) the prefix consumed
+        BEFORE the error token is a prefix of a sentence: the reported token is the FIRST one that
+        cannot continue the input (viable-prefix invariant over the run).
+    Still decided per run by the independent Earley oracle: the converse direction for
+    UnrecognizedEof (if every prefix is viable and the input is not a sentence the error is
+    UnrecognizedEof) follows from these statements only together with termination (C08). *)
 From Coq Require Import List ZArith.
-From LV Require Import LR.Driver LR.Validator LR.Soundness LR.Completeness LR.ErrorPos LR.Main.
+From LV Require Import LR.Driver LR.Validator LR.Soundness LR.Completeness LR.ErrorPos LR.Locality LR.Main.
 Import ListNotations.
 
 Theorem C04_error_token_is_the_token_reached : forall A orc fuel w k exp s,
@@ -32,3 +38,33 @@ Theorem C04_never_extra_token : forall A C, valid A C = true -> uses_recovery A 
 Proof. exact no_extra_token. Qed.
 Print Assumptions C04_never_extra_token.
 
+
+(* the prefix ending in the reported token cannot be continued to a sentence, whatever follows *)
+Theorem C04_error_token_cannot_continue : forall A C, valid A C = true -> uses_recovery A = false ->
+  forall fuel w k exp s,
+  drive A no_fail fuel (map IOk w) = (RErr (PUnrecTok k exp), s) ->
+  exists u v, w = u ++ k :: v /\ npulled s = S (length u) /\ forall v', ~ sentence A (u ++ k :: v').
+Proof. intros A C Hv Hn. exact (error_token_cannot_continue A C Hv Hn). Qed.
+Print Assumptions C04_error_token_cannot_continue.
+
+Theorem C04_eof_error_only_on_non_sentences : forall A C, valid A C = true -> uses_recovery A = false ->
+  forall fuel w loc exp s,
+  drive A no_fail fuel (map IOk w) = (RErr (PUnrecEof loc exp), s) -> ~ sentence A w.
+Proof. intros A C Hv Hn. exact (eof_error_not_a_sentence A C Hv Hn). Qed.
+Print Assumptions C04_eof_error_only_on_non_sentences.
+
+(* an error result does not depend on the fuel once it is reached *)
+Theorem C04_result_is_fuel_independent : forall A orc, uses_recovery A = false ->
+  forall f input r s, drive A orc f input = (r, s) -> r <> RFuel -> forall f', f <= f' -> drive A orc f' input = (r, s).
+Proof. intros A orc Hn. exact (drive_mono A Hn orc). Qed.
+Print Assumptions C04_result_is_fuel_independent.
+
+(* the whole clause: the reported token is the first one that cannot continue the input *)
+Theorem C04_error_at_first_non_viable_token : forall A C, valid A C = true -> uses_recovery A = false ->
+  productive A C = true ->
+  forall fuel w k exp s, Forall (tok_in_range A) w ->
+  drive A no_fail fuel (map IOk w) = (RErr (PUnrecTok k exp), s) ->
+  exists u v, w = u ++ k :: v /\ npulled s = S (length u) /\
+              (exists v', sentence A (u ++ v')) /\ (forall v', ~ sentence A (u ++ k :: v')).
+Proof. intros A C Hv Hn Hp fuel w k exp s Hw H. exact (error_at_first_non_viable_token A C Hv Hn fuel w k exp s Hp Hw H). Qed.
+Print Assumptions C04_error_at_first_non_viable_token.
